@@ -16,6 +16,7 @@ func C06(c *core.Ctx) {
 	c.Explain = "Decides structural necessary conditions of C06; the flattening itself over all histories is behavioural and not decided. (R6.1) in RibEntry.updateNexthopsEnc every call that mutates the FIB (ClearNextHopsEnc / InsertNextHopEnc / SetNextHopsEnc) is reachable only on the edge asserting that the entry is a named one (Name != nil) — name-less filler nodes would address the root FIB entry; the recursion into children is unconditional so inheritance still propagates through fillers; (R6.2) inherited routes are collected only when the entry itself holds no capture route, only child-inherit routes are taken from ancestors, and the ancestor walk has an exit on the edge asserting HasCaptureRoute() of the loop cursor placed after that ancestor's routes were taken; (R6.3) the per-face cost is overwritten only under 'absent ∨ cheaper'; (R6.4) every function that stores to RibEntry.routes or Route.Cost/Flags reaches updateNexthopsEnc of that entry on all exits, face removal reaches Rib.CleanUpFace, which recurses into every child; (R6.5) the face-cleanup scan over an entry's routes has no exit other than exhaustion (routes are keyed by (face, origin), so several may match)."
 	c.RuleText = "instances: FIB-mutator calls in fw/table/rib.go, the ancestor walk, the min-cost map update, every function storing to RibEntry.routes / Route.Cost / Route.Flags (discovered by scanning stores), face-table removal. Non-trivial = has a branch edge or path to decide."
 	p := c.P
+	c06NamesArePrivate(c)
 	// ---- R6.9 (shared with C08 R8.4) the RIB's prune walk unlinks only entries that have
 	// neither routes nor children: otherwise sibling subtrees are orphaned and their routes
 	// no longer reach the FIB
@@ -579,4 +580,138 @@ func prunesSubtree(p *core.Prog, g *ssa.Function) bool {
 		return len(g.Params) > 0 && core.Same(rv, g.Params[0])
 	}, nil)
 	return fr.OK
+}
+
+// c06NamesArePrivate — R6.12 "once a route is removed no next hop remains": the RIB finds
+// the entry to remove by comparing the components kept in its tree with the name of the
+// command. What the tree keeps is therefore a copy of its own: every value stored into
+// RibEntry.component / RibEntry.Name traces to Clone() (of the component, or of the name
+// it is taken from) or to a name the RIB already holds — never to the bare name argument
+// of an exported method, which is decoded from (and aliases) a packet buffer that is
+// reused: afterwards the tree holds another name, unregistration cannot find the entry,
+// and the route and its next hop stay.
+func c06NamesArePrivate(c *core.Ctx) {
+	p := c.P
+	var ownedN func(v ssa.Value, depth int, seen map[ssa.Value]bool) (bool, string)
+	isClone := func(x *ssa.Call) bool {
+		id, ok := core.Callee(&x.Call)
+		return ok && id.Name == "Clone"
+	}
+	ribField := func(v ssa.Value) bool {
+		_, path := core.FieldPath(v)
+		return len(path) > 0 && (path[len(path)-1] == "Name" || path[len(path)-1] == "component")
+	}
+	ownedN = func(v ssa.Value, depth int, seen map[ssa.Value]bool) (bool, string) {
+		v = core.Strip(v)
+		if v == nil || seen[v] {
+			return true, ""
+		}
+		seen[v] = true
+		switch x := v.(type) {
+		case *ssa.Const, *ssa.MakeSlice:
+			return true, ""
+		case *ssa.Call:
+			if isClone(x) {
+				return true, ""
+			}
+			if b, ok := x.Call.Value.(*ssa.Builtin); ok && b.Name() == "append" {
+				return ownedN(x.Call.Args[0], depth, seen)
+			}
+			// At(name, i): an element of the name
+			if cal := x.Call.StaticCallee(); cal != nil && cal.Name() == "At" && len(x.Call.Args) == 2 {
+				return ownedN(x.Call.Args[0], depth, seen)
+			}
+			return false, "the result of " + calleeName(x)
+		case *ssa.Slice:
+			return ownedN(x.X, depth, seen)
+		case *ssa.UnOp:
+			if x.Op == token.MUL {
+				if ia, ok := x.X.(*ssa.IndexAddr); ok {
+					return ownedN(ia.X, depth, seen)
+				}
+				if ribField(x) {
+					return true, "" // what the RIB already holds
+				}
+				if al, isAl := x.X.(*ssa.Alloc); isAl {
+					all, why, n := true, "", 0
+					for _, r := range core.Refs(al) {
+						if st, ok := r.(*ssa.Store); ok && st.Addr == ssa.Value(al) {
+							n++
+							if ok2, w := ownedN(st.Val, depth, seen); !ok2 {
+								all, why = false, w
+							}
+						}
+					}
+					return all && n > 0, why
+				}
+			}
+			return false, "a value loaded from " + describeValue(x.X)
+		case *ssa.Phi:
+			for _, e := range x.Edges {
+				if ok, w := ownedN(e, depth, seen); !ok {
+					return false, w
+				}
+			}
+			return true, ""
+		case *ssa.Parameter:
+			fn := x.Parent()
+			exported := fn.Parent() == nil && fn.Object() != nil && fn.Object().Exported()
+			if exported || depth == 0 {
+				return false, "parameter " + x.Name() + " of " + core.FuncName(fn)
+			}
+			idx := -1
+			for i, q := range fn.Params {
+				if q == x {
+					idx = i
+				}
+			}
+			sites := p.Callers(fn)
+			if len(sites) == 0 || idx < 0 {
+				return false, "parameter " + x.Name() + " of " + core.FuncName(fn)
+			}
+			for _, ci := range sites {
+				if ps := ci.Parent().Pos(); ps.IsValid() && strings.HasSuffix(p.Fset.Position(ps).Filename, "_test.go") {
+					continue
+				}
+				recv, args := core.CallArgs(ci.Common())
+				all := args
+				if fn.Signature.Recv() != nil {
+					all = append([]ssa.Value{recv}, args...)
+				}
+				if idx >= len(all) {
+					return false, "an argument of " + core.FuncName(ci.Parent())
+				}
+				if ok, w := ownedN(all[idx], depth-1, seen); !ok {
+					return false, w
+				}
+			}
+			return true, ""
+		}
+		return false, describeValue(v)
+	}
+	n := 0
+	for _, fn := range p.FuncsIn(core.ModPath + "/fw/table") {
+		if strings.HasSuffix(p.File(fn.Pos()), "_test.go") {
+			continue
+		}
+		core.Instrs(fn, func(in ssa.Instruction) {
+			st, ok := in.(*ssa.Store)
+			if !ok {
+				return
+			}
+			fa, ok := st.Addr.(*ssa.FieldAddr)
+			if !ok {
+				return
+			}
+			t, f := core.FieldAddrName(fa)
+			if t != "RibEntry" || (f != "component" && f != "Name") || core.IsNilConst(core.Strip(st.Val)) {
+				return
+			}
+			n++
+			c.Funcs[core.FuncName(fn)] = true
+			okO, why := ownedN(st.Val, 3, map[ssa.Value]bool{})
+			c.Decide(okO, "R6.12", fmt.Sprintf("rib-keeps-a-private-copy:%s:%s", f, core.FuncName(fn)), c.Pos(in), "the stored "+f+" is a copy (Clone) or taken from a name the RIB already holds", "the RIB keeps the caller's storage as an entry's "+f+" ("+why+"): names decoded from a packet alias its buffer; once that buffer is reused the tree holds another name, rib/unregister cannot find the entry, and the route and its next hop stay for ever")
+		})
+	}
+	c.Floor("R6.12", "stores of a name or component into a RIB entry", n, 2)
 }
